@@ -679,6 +679,9 @@ class ValidStreams(Component):
 # ------------------------------------------------------------------------------------------------
 # C04 / C05 — malformed, damaged and truncated input
 # ------------------------------------------------------------------------------------------------
+# 65535-sample blocks whose subframes are CONSTANT / all-zero partitions: ~20 bytes per frame
+MEMORY_BOMBS = []
+
 class InvalidStreams(Component):
     """checksum-consistent frames with one field forced to an illegal or extreme value (Lean generator)"""
     ops = ('streamread', 'decfile')
@@ -687,12 +690,21 @@ class InvalidStreams(Component):
         self.mode = mode         # 'nopanic' (C04) or 'reject' (C05)
         self.name = 'invalid-' + mode
     def cases(self, rng, tier, boost):
-        return driver_gen('invalid', rng.randint(1, 10 ** 9), self.budget(tier, boost, 1500, 80000))
+        cs = driver_gen('invalid', rng.randint(1, 10 ** 9), self.budget(tier, boost, 1500, 80000))
+        if self.mode == 'nopanic':
+            cs = [c + ' alloc=1' for c in cs]
+            # few bytes in, half a million samples out: the largest legal block, zero-width partitions
+            cs += [c + ' alloc=1' for c in MEMORY_BOMBS]
+        return cs
     def oracle(self, case, impl, profile):
         op, cf = parse_case(case)
         h, cls, f = parse_outcome(impl)
         if h == 'panic':
             return (f'decode:{profile}:panic:{cls}', f'decoder panicked ({profile}) on a checksum-valid malformed frame of class {cf.get("class")}: {cls}')
+        if self.mode == 'nopanic' and 'peak' in f:
+            bound = (64 << 20) + 1024 * (len(cf.get('bytes', '')) // 2)
+            if int(f['peak']) > bound:
+                return (f'decode:{profile}:memory:{cf.get("class")}', f'peak allocation {f["peak"]} bytes for {len(cf.get("bytes",""))//2} input bytes exceeds {bound}')
         if self.mode == 'reject' and cf.get('expect') == 'reject':
             accepted = ('F/' in f.get('seq', '')) if op == 'streamread' else (h == 'ok')
             if accepted:
@@ -764,7 +776,7 @@ class Damage(Component):
             for _ in range(rng.randint(0, 3)):
                 if ln >= 2:
                     j = rng.randint(0, ln - 2); b[j] = 0xFF; b[j + 1] = rng.choice([0xF8, 0xF9])
-            out.append(f'streamread kind=raw bytes={bytes(b).hex()}')
+            out.append(f'streamread kind=raw bytes={bytes(b).hex()}' + (' alloc=1' if self.mode == 'nopanic' else ''))
             if files:
                 hd = bytes.fromhex(rng.choice(files)['bytes'])[:42]
                 out.append(f'decfile reader={rng.choice(["sample", "byte", "chan", "iter"])} kind=raw bytes={(hd + bytes(b)).hex()}')
@@ -774,6 +786,10 @@ class Damage(Component):
         h, cls, f = parse_outcome(impl)
         if h == 'panic':
             return (f'decode:{profile}:panic:{cls}', f'decoder panicked ({profile}) on damaged input ({cf.get("mut", cf.get("kind"))}): {cls}')
+        if self.mode == 'nopanic' and 'peak' in f:
+            bound = (64 << 20) + 1024 * (len(cf.get('bytes', '')) // 2)
+            if int(f['peak']) > bound:
+                return (f'decode:{profile}:memory', f'peak allocation {f["peak"]} bytes for {len(cf.get("bytes",""))//2} input bytes exceeds {bound}')
         if self.mode != 'detect' or cf.get('kind') != 'mut':
             return None
         ch = int(cf['ch'])
@@ -976,4 +992,44 @@ PROPS['C03'] = dict(
          'exhibited on generated valid streams, where the implementation, the L1 model and the expected PCM coincide. Variable-blocksize numbering is parsed and ignored by the crate.',
     trusted_base=COMMON_TRUST + ['Driver/Gen.lean (generator of valid streams), validated per case against the L1 model'],
     assumptions=['valid stream: every value the format defines fits its declared width'],
+)
+
+PROPS['C04'] = dict(
+    module='FlacModel.Props.C04',
+    theorems=['Flac.C04.np_decLayout', 'Flac.C04.readSubframe_np_facts', 'Flac.C04.np_decodeSub', 'Flac.C04.np_recorrelate',
+              'Flac.C04.pnp_readHeaderFields', 'Flac.C04.decode_no_panic', 'Flac.C04.stream_read_no_panic', 'Flac.C04.file_loop_no_panic'],
+    components=[InvalidStreams('nopanic'), Damage('nopanic')],
+    rule='(a) 1500 (quick) / 80000 (thorough) checksum-consistent frames from the Lean generator with one field forced illegal or extreme (22 classes: reserved codes, wasted >= depth, '
+         'precision 1111, negative shift, reserved coding methods, any partition order with matching partition count, residuals beyond 32 bits, samples leaving their depth, non-zero padding, '
+         'predictor order > block, maximal LPC on full-scale input incl. the 33-bit side path, full-scale stereo, maximal wasted bits, zero-width partitions, one-sample block with order 1, '
+         'declared total smaller than the frames); (b) every single-bit flip and every truncation of 8 (40) small valid files plus CRC-16-repaired flips; (c) raw bytes with planted sync codes; '
+         'all through FlacStreamReader and the four file readers in the optimised AND the overflow-checked profile, peak allocation per case measured by a counting allocator against '
+         '64 MiB + 1 KiB per input byte; the Lean decoder model must predict each outcome (including would-be panic sites)',
+    claim='decode_no_panic: for EVERY byte string, STREAMINFO context and both profiles the frame decoder model (header, subframes, residuals, prediction, wasted bits, channel reconstruction, '
+          'both CRCs) ends in data or an error - proved function by function (pnp_* for the bit parsers, np_decLayout for the guarded partition length, np_decodeSub from the parsed-field facts '
+          'readSubframe_np_facts: wasted < depth and shift < 16, np_recorrelate for the wrapping reconstruction incl. the 33-bit path); stream_read_no_panic and file_loop_no_panic lift it to '
+          'FlacStreamReader::read and to the readers\' frame loop (where total - current_sample can no longer underflow). The arithmetic facts come from kernels regenerated from decode.rs.',
+    note='Termination holds of the model by construction (total functions); wall-clock termination and the real allocator\'s peak are exhibited by the correspondence run (per-case flush, '
+         'counting allocator), not proved. The structural parser (stream.rs) is covered under C17; metadata parsing under C12.',
+    trusted_base=COMMON_TRUST,
+    assumptions=['bitstream-io readers do not panic on short input (they return UnexpectedEof): trusted, exercised on every truncation point'],
+)
+
+PROPS['C05'] = dict(
+    module='FlacModel.Props.C05',
+    theorems=['Flac.C05.unstep_step', 'Flac.C05.step16_inj', 'Flac.C05.step8_inj', 'Flac.C05.crc16_single_bit', 'Flac.C05.crc8_single_bit',
+              'Flac.C05.flip_same_extent_rejected'],
+    components=[InvalidStreams('reject'), Damage('detect')],
+    rule='every single-bit flip in the audio frames and every truncation point of 8 (quick) / 40 (thorough) small valid files (exhaustive per file, about 1200 flips and 150 cuts each): '
+         'the decode must end in an error unless the independent L0 decoder accepts the altered bytes with the same PCM, and the samples delivered before the error must be a whole-frame prefix '
+         'of the original; plus the must-reject classes of the invalid-frame generator (block-size 0000, rate 1111, depth 011, wasted >= depth, precision 1111, negative shift, coding method >= 2, '
+         'order > block, residual beyond 32 bits, one-sample block with partition order 1, frames overshooting the declared total); MD5 verdicts are checked under C03',
+    claim='crc16_single_bit / crc8_single_bit: flipping any one bit of a message of ANY length changes its CRC (the LFSR step is invertible because both generator polynomials are odd: '
+          'unstep_step, proved algebraically for every register width, then step*_inj and induction over the remaining bits); flip_same_extent_rejected: a single-bit flip that leaves the '
+          'frame extent unchanged can never keep the residue at 0.',
+    note='The CRC theorems are about the bit-serial CRCs of the specification; the crate\'s table-driven CRCs are tied to them by C02 (tables = polynomials, update shape, all one-byte messages) '
+         'and by the correspondence on every frame. Soundness of everything the decoder accepts (impl_accept_sound) and prefix-determinism of truncations are decided by the exhaustive '
+         'flip/truncation runs against the independent L0 decoder, not by a theorem.',
+    trusted_base=COMMON_TRUST + ['Spec/Rfc.lean'],
+    assumptions=[],
 )
